@@ -109,7 +109,29 @@ def parse_stmt(s, i):
         header, j = balanced(s, j, "(", ")")
         body, j = parse_stmt(s, j)
         return [("for", header, body)], j
-    for kw in ("while", "do", "switch", "try", "goto", "return", "throw", "case", "default", "else"):
+    if keyword_at(s, i, "while"):
+        j = skip_ws(s, i + 5)
+        if j >= len(s) or s[j] != "(":
+            raise Untranslatable("`while` without condition")
+        cond, j = balanced(s, j, "(", ")")
+        body, j = parse_stmt(s, j)
+        return [("while", cond, body)], j
+    if keyword_at(s, i, "try"):
+        body, j = parse_stmt(s, i + 3)
+        handlers = []
+        k = skip_ws(s, j)
+        while keyword_at(s, k, "catch"):
+            k2 = skip_ws(s, k + 5)
+            if k2 >= len(s) or s[k2] != "(":
+                raise Untranslatable("`catch` without declaration")
+            decl, k2 = balanced(s, k2, "(", ")")
+            hbody, j = parse_stmt(s, k2)
+            handlers.append((decl, hbody))
+            k = skip_ws(s, j)
+        if not handlers:
+            raise Untranslatable("`try` without `catch`")
+        return [("try", body, handlers)], j
+    for kw in ("do", "switch", "goto", "return", "throw", "case", "default", "else", "catch"):
         if keyword_at(s, i, kw):
             raise Untranslatable("unsupported statement `%s`" % kw)
     for kw in ("break", "continue"):
@@ -389,8 +411,12 @@ def walk(nodes):
         if n[0] == "if":
             yield from walk(n[2])
             yield from walk(n[3])
-        elif n[0] == "for":
+        elif n[0] in ("for", "while"):
             yield from walk(n[2])
+        elif n[0] == "try":
+            yield from walk(n[1])
+            for _, h in n[2]:
+                yield from walk(h)
 
 
 def canonicalise(body, prefix, direction, notes):
